@@ -226,3 +226,391 @@ theorem readUntil_refines (r : R σ) (d : Bytes) (size : Option Int) (hinv : Inv
   simp only [hj, decide_true, if_true]
   exact e1
 end Rd
+
+/-! ## `pipe_until`, `read_until` on both branches, `readline`, `readlines` -/
+namespace Rd
+variable {σ : Type} [Source σ] [LawfulSource σ]
+
+theorem stopAt_le_length (d A : Bytes) (n : Nat) (hd : d ≠ []) : stopAt d A n ≤ A.length := by
+  unfold stopAt
+  rcases firstOcc_spec d A hd with ⟨h, _⟩ | ⟨p, h, ho, _⟩
+  · simp only [h, Option.getD_none]; omega
+  · have := occ_lt_length d A p hd ho
+    simp only [h, Option.getD_some]; omega
+
+theorem stopAt_zero (d A : Bytes) : stopAt d A 0 = 0 := by unfold stopAt; omega
+
+theorem no_occ_nil (d : Bytes) (hd : d ≠ []) (j : Nat) : ¬ occ d [] j := by
+  intro h; have := occ_lt_length d [] j hd h; simp at this
+
+/-- how `read_until(d, m)` composes with what follows: either it stopped early (at the delimiter or the end of the text) -
+    then a larger size cap stops at the same place and a further `read_until` returns nothing - or it returned `m` bytes and
+    the rest of a larger request continues on the rest of the text -/
+theorem stopAt_step (d A : Bytes) (m : Nat) (hd : d ≠ []) :
+    (stopAt d A m < m ∧ (∀ n, m ≤ n → stopAt d A n = stopAt d A m) ∧ (∀ n', stopAt d (A.drop (stopAt d A m)) n' = 0)) ∨
+    (stopAt d A m = m ∧ ∀ n', stopAt d A (m + n') = m + stopAt d (A.drop m) n') := by
+  rcases firstOcc_spec d A hd with ⟨_, hno⟩ | ⟨p, _, hp, hbefore⟩
+  · have hs : ∀ x, stopAt d A x = min x A.length := fun x => stopAt_none d A x hd hno
+    by_cases hlt : A.length < m
+    · left
+      refine ⟨by rw [hs]; omega, fun n hn => by rw [hs, hs]; omega, fun n' => ?_⟩
+      rw [hs, List.drop_of_length_le (by omega), stopAt_none d [] n' hd (no_occ_nil d hd)]
+      simp
+    · right
+      refine ⟨by rw [hs]; omega, fun n' => ?_⟩
+      have hno' : ∀ j, ¬ occ d (A.drop m) j := fun j h => hno (m + j) ((occ_drop d A m j).mp h)
+      rw [hs, stopAt_none d (A.drop m) n' hd hno', List.length_drop]; omega
+  · have hs : ∀ x, stopAt d A x = min x p := fun x => stopAt_of_occ d A x p hd hp hbefore
+    by_cases hlt : p < m
+    · left
+      refine ⟨by rw [hs]; omega, fun n hn => by rw [hs, hs]; omega, fun n' => ?_⟩
+      have h0 : occ d (A.drop p) 0 := (occ_drop d A p 0).mpr (by simpa using hp)
+      have hmp : min m p = p := by omega
+      rw [hs, hmp, stopAt_of_occ d (A.drop p) n' 0 hd h0 (fun j hj => absurd hj (Nat.not_lt_zero j))]
+      omega
+    · right
+      refine ⟨by rw [hs]; omega, fun n' => ?_⟩
+      have h1 : occ d (A.drop m) (p - m) := (occ_drop d A m (p - m)).mpr (by rw [show m + (p - m) = p by omega]; exact hp)
+      have h2 : ∀ j < p - m, ¬ occ d (A.drop m) j := fun j hj h => hbefore (m + j) (by omega) ((occ_drop d A m j).mp h)
+      rw [hs, stopAt_of_occ d (A.drop m) n' (p - m) hd h1 h2]; omega
+
+/-- the `while remaining > 0` loop of `pipe_until`: its pieces concatenate to exactly what one `read_until(d, remaining)`
+    returns on the flat text, and the cursor is left behind them -/
+theorem pipeUntilLoop_refines (d : Bytes) (hd : d ≠ []) : ∀ (fuel : Nat) (r : R σ) (remaining : Int) (acc : Bytes),
+    Inv r → r.pos ≤ r.len → (d.length : Int) ≤ r.chunk → (abs r).length < fuel →
+    ∃ r', pipeUntilLoop fuel r d remaining acc = (.ok (acc ++ (abs r).take (stopAt d (abs r) remaining.toNat)), r') ∧
+      abs r' = (abs r).drop (stopAt d (abs r) remaining.toNat) ∧ Inv r' ∧ r'.pos ≤ r'.len ∧ r'.chunk = r.chunk := by
+  intro fuel
+  induction fuel with
+  | zero => intro r _ _ _ _ _ h; omega
+  | succ n ih =>
+    intro r remaining acc hinv hpl hdc hlt
+    have hc := hinv.chunk_pos
+    unfold pipeUntilLoop
+    by_cases hrem : remaining > 0
+    · simp only [hrem, if_true]
+      have hm0 : 0 ≤ min r.chunk remaining := by omega
+      obtain ⟨r1, e1, e2, e3, e4, e5⟩ := readUntil'_refines r d (min r.chunk remaining) hinv hpl hm0 hd hdc
+      rw [e1]
+      simp only
+      have hkl := stopAt_le_length d (abs r) (min r.chunk remaining).toNat hd
+      have hmpos : 0 < (min r.chunk remaining).toNat := by omega
+      have hN : (min r.chunk remaining).toNat ≤ remaining.toNat := by omega
+      by_cases hemp : ((abs r).take (stopAt d (abs r) (min r.chunk remaining).toNat)).isEmpty = true
+      · simp only [hemp, if_true]
+        have hk0 : stopAt d (abs r) (min r.chunk remaining).toNat = 0 := by
+          have h := congrArg List.length (List.isEmpty_iff.mp hemp)
+          rw [List.length_take] at h; simp only [List.length_nil] at h; omega
+        have hfin : stopAt d (abs r) remaining.toNat = 0 := by
+          rcases stopAt_step d (abs r) (min r.chunk remaining).toNat hd with ⟨_, h2, _⟩ | ⟨h1, _⟩
+          · rw [h2 _ hN, hk0]
+          · omega
+        refine ⟨r1, ?_, ?_, e3, e4, e5⟩
+        · rw [hfin]; simp
+        · rw [e2, hk0, hfin]
+      · have hemp' : ((abs r).take (stopAt d (abs r) (min r.chunk remaining).toNat)).isEmpty = false := by simpa using hemp
+        simp only [hemp', Bool.false_eq_true, if_false]
+        have hkpos : 0 < stopAt d (abs r) (min r.chunk remaining).toNat := by
+          rcases Nat.eq_zero_or_pos (stopAt d (abs r) (min r.chunk remaining).toNat) with h | h
+          · rw [h] at hemp'; simp at hemp'
+          · exact h
+        have hlen1 : (abs r1).length < n := by rw [e2, List.length_drop]; omega
+        obtain ⟨r2, f1, f2, f3, f4, f5⟩ := ih r1 (remaining - r1.chunk) (acc ++ (abs r).take (stopAt d (abs r) (min r.chunk remaining).toNat)) e3 e4 (by rw [e5]; exact hdc) hlen1
+        refine ⟨r2, ?_, ?_, f3, f4, f5.trans e5⟩
+        · rw [f1, e2, e5]
+          rcases stopAt_step d (abs r) (min r.chunk remaining).toNat hd with ⟨_, h2, h3⟩ | ⟨h1, h2⟩
+          · rw [h3, h2 _ hN]; simp
+          · by_cases hle : remaining ≤ r.chunk
+            · have : (remaining - r.chunk).toNat = 0 := by omega
+              rw [this, stopAt_zero]
+              have : (min r.chunk remaining).toNat = remaining.toNat := by omega
+              rw [this]; simp
+            · have hsplit : remaining.toNat = (min r.chunk remaining).toNat + (remaining - r.chunk).toNat := by omega
+              rw [hsplit, h2, h1, List.take_add, List.append_assoc]
+        · rw [f2, e2, e5]
+          rcases stopAt_step d (abs r) (min r.chunk remaining).toNat hd with ⟨_, h2, h3⟩ | ⟨h1, h2⟩
+          · rw [h3, h2 _ hN]; simp
+          · by_cases hle : remaining ≤ r.chunk
+            · have : (remaining - r.chunk).toNat = 0 := by omega
+              rw [this, stopAt_zero]
+              have : (min r.chunk remaining).toNat = remaining.toNat := by omega
+              rw [this]; simp
+            · have hsplit : remaining.toNat = (min r.chunk remaining).toNat + (remaining - r.chunk).toNat := by omega
+              rw [hsplit, h2, h1, List.drop_drop]
+    · simp only [hrem, if_false]
+      have : remaining.toNat = 0 := by omega
+      refine ⟨r, ?_, ?_, hinv, hpl, rfl⟩
+      · rw [this, stopAt_zero]; simp
+      · rw [this, stopAt_zero]; simp
+
+theorem fuel_enough (r : R σ) (hinv : Inv r) (hpl : r.pos ≤ r.len) :
+    (abs r).length < Source.bound r.src + r.buf.length + 3 := by
+  rw [abs_eq r hinv hpl, List.length_append, List.length_drop]
+  have := avail_length_le r
+  omega
+
+/-- the loop of `pipe_until(d, _size=size)` started from the public entry point: fuel suffices, the size is normalised -/
+theorem pipeUntil_loop (r : R σ) (d : Bytes) (size : Option Int) (hinv : Inv r) (hpl : r.pos ≤ r.len)
+    (hs : ∀ s, size = some s → s = -1 ∨ 0 ≤ s) (hd : d ≠ []) (hdc : (d.length : Int) ≤ r.chunk) :
+    ∃ r', pipeUntilLoop (Source.bound r.src + r.buf.length + 3) r d (normalizeSize r size) []
+        = (.ok ((abs r).take (stopAt d (abs r) (want (abs r) size))), r') ∧
+      abs r' = (abs r).drop (stopAt d (abs r) (want (abs r) size)) ∧ Inv r' ∧ r'.pos ≤ r'.len ∧ r'.chunk = r.chunk := by
+  obtain ⟨r', e1, e2, e3, e4, e5⟩ := pipeUntilLoop_refines d hd _ r (normalizeSize r size) [] hinv hpl hdc (fuel_enough r hinv hpl)
+  rw [stopAt_normalize r d size hinv hpl hd hs] at e1 e2
+  exact ⟨r', by rw [e1]; simp, e2, e3, e4, e5⟩
+
+/-- **`pipe_until(d)`** without consuming the delimiter writes exactly what `read_until(d, size)` returns on the flat text -/
+theorem pipeUntil_refines (r : R σ) (d : Bytes) (size : Option Int) (hinv : Inv r) (hpl : r.pos ≤ r.len)
+    (hs : ∀ s, size = some s → s = -1 ∨ 0 ≤ s) (hd : d ≠ []) (hdc : (d.length : Int) ≤ r.chunk) :
+    ∃ r', pipeUntil r d false size = (.ok ((abs r).take (stopAt d (abs r) (want (abs r) size))), r') ∧
+      abs r' = (abs r).drop (stopAt d (abs r) (want (abs r) size)) ∧ Inv r' ∧ r'.pos ≤ r'.len ∧ r'.chunk = r.chunk := by
+  obtain ⟨r', e1, e2, e3, e4, e5⟩ := pipeUntil_loop r d size hinv hpl hs hd hdc
+  refine ⟨r', ?_, e2, e3, e4, e5⟩
+  unfold pipeUntil
+  simp only [e1]
+  rfl
+
+/-- `pipe_until(d, consume_delimiter=True)` is the non-consuming one followed by the peek-and-step tail -/
+theorem pipeUntil_consume_eq (r : R σ) (d : Bytes) (size : Option Int) (hinv : Inv r) (hpl : r.pos ≤ r.len)
+    (hs : ∀ s, size = some s → s = -1 ∨ 0 ≤ s) (hd : d ≠ []) (hdc : (d.length : Int) ≤ r.chunk) :
+    ∃ r1, pipeUntil r d false size = (.ok ((abs r).take (stopAt d (abs r) (want (abs r) size))), r1) ∧
+      pipeUntil r d true size = tailPeek r1 d ((abs r).take (stopAt d (abs r) (want (abs r) size))) := by
+  obtain ⟨r', e1, _⟩ := pipeUntil_loop r d size hinv hpl hs hd hdc
+  refine ⟨r', ?_, ?_⟩
+  · unfold pipeUntil; simp only [e1]; rfl
+  · unfold pipeUntil tailPeek; simp only [e1]; rfl
+
+/-- **`pipe_until(d, consume_delimiter=True)`**: writes the same bytes; steps over the delimiter iff the cursor is then at
+    it, otherwise raises `DelimiterError` with the cursor left just behind what was written -/
+theorem pipeUntil_consume_refines (r : R σ) (d : Bytes) (size : Option Int) (hinv : Inv r) (hpl : r.pos ≤ r.len)
+    (hs : ∀ s, size = some s → s = -1 ∨ 0 ≤ s) (hd : d ≠ []) (hdc : (d.length : Int) ≤ r.chunk) :
+    let k := stopAt d (abs r) (want (abs r) size)
+    let out := pipeUntil r d true size
+    ((((abs r).drop k).take d.length = d) →
+      out.1 = .ok ((abs r).take k) ∧ abs out.2 = (abs r).drop (k + d.length) ∧ Inv out.2 ∧ out.2.pos ≤ out.2.len) ∧
+    ((((abs r).drop k).take d.length ≠ d) →
+      out.1 = .delimErr ∧ abs out.2 = (abs r).drop k ∧ Inv out.2 ∧ out.2.pos ≤ out.2.len) := by
+  intro k out
+  obtain ⟨r1, e1, e2, e3, e4, e5⟩ := pipeUntil_loop r d size hinv hpl hs hd hdc
+  obtain ⟨r1', g1, g2⟩ := pipeUntil_consume_eq r d size hinv hpl hs hd hdc
+  have hr : r1' = r1 := by
+    have h1 : pipeUntil r d false size = (.ok ((abs r).take k), r1) := by unfold pipeUntil; simp only [e1]; rfl
+    rw [g1] at h1; exact (Prod.mk.inj h1).2
+  subst hr
+  have hsp := tailPeek_spec r1' d ((abs r).take k) e3 e4 (by rw [e5]; exact hdc)
+  simp only [out, g2]
+  rw [e2] at hsp
+  constructor
+  · intro h
+    obtain ⟨a, b, c, dd⟩ := hsp.1 h
+    exact ⟨a, by rw [b, List.drop_drop], c, dd⟩
+  · intro h
+    exact hsp.2 h
+
+/-- **`read_until(d, size)`**, delimiter not consumed, *both* branches (the in-memory join below 128 chunks and the switch to
+    `pipe_until` above): returns the text up to the first occurrence of the delimiter / `size` bytes / the end -/
+theorem readUntil_refines_all (r : R σ) (d : Bytes) (size : Option Int) (hinv : Inv r) (hpl : r.pos ≤ r.len)
+    (hs : ∀ s, size = some s → s = -1 ∨ 0 ≤ s) (hd : d ≠ []) (hdc : (d.length : Int) ≤ r.chunk) :
+    ∃ r', readUntil r d size false = (.ok ((abs r).take (stopAt d (abs r) (want (abs r) size))), r') ∧
+      abs r' = (abs r).drop (stopAt d (abs r) (want (abs r) size)) ∧ Inv r' ∧ r'.pos ≤ r'.len ∧ r'.chunk = r.chunk := by
+  by_cases hj : normalizeSize r size ≤ maxJoin r
+  · exact readUntil_refines r d size hinv hpl hs hd hdc hj
+  · have h0 := (take_normalize r size hinv hpl hs).1
+    obtain ⟨r', e1, e2, e3, e4, e5⟩ := pipeUntil_refines r d (some (normalizeSize r size)) hinv hpl (fun s h => by cases h; right; exact h0) hd hdc
+    have hw : stopAt d (abs r) (want (abs r) (some (normalizeSize r size))) = stopAt d (abs r) (want (abs r) size) := by
+      have : want (abs r) (some (normalizeSize r size)) = (normalizeSize r size).toNat := by
+        unfold want
+        by_cases h : normalizeSize r size = -1
+        · omega
+        · simp [h]
+      rw [this, stopAt_normalize r d size hinv hpl hd hs]
+    rw [hw] at e1 e2
+    refine ⟨r', ?_, e2, e3, e4, e5⟩
+    unfold readUntil
+    simp only [hj, decide_false, Bool.false_eq_true, if_false]
+    exact e1
+
+/-- a quantity that no longer depends on the size cap once the cap reaches the end of the text is the same for the
+    normalised size the code computes and for the size the caller meant -/
+theorem normalize_irrelevant (r : R σ) (size : Option Int) (f : Nat → Nat) (hinv : Inv r) (hpl : r.pos ≤ r.len)
+    (hs : ∀ s, size = some s → s = -1 ∨ 0 ≤ s) (hf : ∀ n, (abs r).length ≤ n → f n = f (abs r).length) :
+    f (normalizeSize r size).toNat = f (want (abs r) size) := by
+  have hl := abs_length_le r hinv hpl
+  have hnn : (0 : Int) ≤ r.rem + r.len - r.pos := by have := hinv.rem_nonneg; omega
+  unfold normalizeSize want
+  cases size with
+  | none => simp only; exact hf _ (by omega)
+  | some s =>
+    simp only
+    by_cases h1 : s = -1
+    · simp only [h1, beq_self_eq_true, Bool.true_or, if_true]
+      exact hf _ (by omega)
+    · have hs0 : 0 ≤ s := by rcases hs s rfl with h | h; exact absurd h h1; exact h
+      have hb : (s == -1) = false := by simp [h1]
+      simp only [hb, Bool.false_or, h1, if_false]
+      by_cases h2 : s > r.rem + r.len - r.pos
+      · simp only [h2, decide_true, if_true]
+        rw [hf _ (by omega), hf s.toNat (by omega)]
+      · simp only [h2, decide_false]
+        rfl
+
+/-- how far `readline(size)` goes on the flat text `A`: through the first LF, at most `n` bytes, at most to the end -/
+def lineStop (A : Bytes) (n : Nat) : Nat :=
+  min n (match firstOcc [10] A with | some p => p + 1 | none => A.length)
+
+theorem lineStop_big (A : Bytes) (n : Nat) (hn : A.length ≤ n) : lineStop A n = lineStop A A.length := by
+  unfold lineStop
+  rcases firstOcc_spec [10] A (by simp) with ⟨h, _⟩ | ⟨p, h, ho, _⟩
+  · simp only [h]; omega
+  · have := occ_lt_length [10] A p (by simp) ho
+    simp only [h]; omega
+
+/-- `read_until(LF, n)` followed by `read(1)` when it came back short = one line -/
+theorem lineStop_of_stopAt (A : Bytes) (n : Nat) :
+    (stopAt [10] A n < n → A.take (stopAt [10] A n + 1) = A.take (lineStop A n) ∧ A.drop (stopAt [10] A n + 1) = A.drop (lineStop A n)) ∧
+    (¬ stopAt [10] A n < n → stopAt [10] A n = lineStop A n) := by
+  unfold stopAt lineStop
+  rcases firstOcc_spec [10] A (by simp) with ⟨h, _⟩ | ⟨p, h, ho, _⟩
+  · simp only [h, Option.getD_none]
+    constructor
+    · intro hlt
+      have h1 : min n A.length = A.length := by omega
+      rw [h1, List.take_of_length_le (by omega), List.take_of_length_le (Nat.le_refl _),
+        List.drop_of_length_le (by omega), List.drop_of_length_le (Nat.le_refl _)]
+      exact ⟨rfl, rfl⟩
+    · intro _; trivial
+  · have := occ_lt_length [10] A p (by simp) ho
+    simp only [h, Option.getD_some]
+    constructor
+    · intro hlt
+      have h1 : min n p + 1 = min n (p + 1) := by omega
+      rw [h1]; exact ⟨rfl, rfl⟩
+    · intro hge; omega
+
+/-- **`readline(size)`** returns the next line - through the first LF, at most `size` bytes, at most to the end of the
+    declared data - and leaves exactly the rest -/
+theorem readline_refines (r : R σ) (size : Option Int) (hinv : Inv r) (hpl : r.pos ≤ r.len)
+    (hs : ∀ s, size = some s → s = -1 ∨ 0 ≤ s) :
+    ∃ r', readline r size = (.ok ((abs r).take (lineStop (abs r) (want (abs r) size))), r') ∧
+      abs r' = (abs r).drop (lineStop (abs r) (want (abs r) size)) ∧ Inv r' ∧ r'.pos ≤ r'.len ∧ r'.chunk = r.chunk := by
+  have hc := hinv.chunk_pos
+  have h0 := (take_normalize r size hinv hpl hs).1
+  have hN : lineStop (abs r) (normalizeSize r size).toNat = lineStop (abs r) (want (abs r) size) :=
+    normalize_irrelevant r size (lineStop (abs r)) hinv hpl hs (fun n hn => lineStop_big _ n hn)
+  rw [← hN]
+  obtain ⟨r1, e1, e2, e3, e4, e5⟩ := readUntil_refines_all r [10] (some (normalizeSize r size)) hinv hpl
+    (fun s h => by cases h; right; exact h0) (by simp) (by simp; omega)
+  have hw : want (abs r) (some (normalizeSize r size)) = (normalizeSize r size).toNat := by
+    unfold want
+    by_cases h : normalizeSize r size = -1
+    · omega
+    · simp [h]
+  rw [hw] at e1 e2
+  have hkl := stopAt_le_length [10] (abs r) (normalizeSize r size).toNat (by simp)
+  obtain ⟨c1, c2⟩ := lineStop_of_stopAt (abs r) (normalizeSize r size).toNat
+  unfold readline
+  simp only [e1]
+  have hlen : (((abs r).take (stopAt [10] (abs r) (normalizeSize r size).toNat)).length : Int)
+      = (stopAt [10] (abs r) (normalizeSize r size).toNat : Int) := by
+    rw [List.length_take]; omega
+  by_cases hshort : stopAt [10] (abs r) (normalizeSize r size).toNat < (normalizeSize r size).toNat
+  · have hlt : (((abs r).take (stopAt [10] (abs r) (normalizeSize r size).toNat)).length : Int) < normalizeSize r size := by
+      rw [hlen]; omega
+    simp only [hlt, if_true]
+    obtain ⟨g1, g2, g3, g4, g5⟩ := read_refines r1 (some 1) e3 e4 (fun s h => by cases h; right; omega)
+    have hw1 : want (abs r1) (some 1) = 1 := by unfold want; simp
+    rw [hw1] at g1 g2
+    obtain ⟨t1, t2⟩ := c1 hshort
+    refine ⟨(read r1 (some 1)).2, ?_, ?_, g3, g4, g5.trans e5⟩
+    · rw [g1, e2, ← t1, List.take_add]
+    · rw [g2, e2, ← t2, List.drop_drop]
+  · have hge : ¬ ((((abs r).take (stopAt [10] (abs r) (normalizeSize r size).toNat)).length : Int) < normalizeSize r size) := by
+      rw [hlen]; omega
+    simp only [hge, if_false]
+    rw [← c2 hshort]
+    exact ⟨r1, rfl, e2, e3, e4, e5⟩
+
+/-- `readlines(hint)` on the flat text: lines are cut off one after the other until the text is used up or, for `hint ≥ 0`,
+    the total reaches `hint` (so `hint = 0` yields one line, as the code does) -/
+def specLines : Nat → Bytes → Int → Int → List Bytes → List Bytes × Bytes
+  | 0, A, _, _, acc => (acc, A)
+  | fuel + 1, A, hint, nread, acc =>
+    let k := lineStop A A.length
+    if (A.take k).isEmpty then (acc, A.drop k) else
+    if hint ≥ 0 then
+      if nread + (A.take k).length ≥ hint then (acc ++ [A.take k], A.drop k)
+      else specLines fuel (A.drop k) hint (nread + (A.take k).length) (acc ++ [A.take k])
+    else specLines fuel (A.drop k) hint nread (acc ++ [A.take k])
+
+/-- the `while True` loop of `readlines` computes `specLines` of the text still to come -/
+theorem readlinesLoop_refines : ∀ (fuel : Nat) (r : R σ) (hint nread : Int) (acc : List Bytes), Inv r → r.pos ≤ r.len →
+    ∃ r', readlinesLoop fuel r hint nread acc = (some (specLines fuel (abs r) hint nread acc).1, r') ∧
+      abs r' = (specLines fuel (abs r) hint nread acc).2 ∧ Inv r' ∧ r'.pos ≤ r'.len := by
+  intro fuel
+  induction fuel with
+  | zero => intro r hint nread acc hinv hpl; exact ⟨r, rfl, rfl, hinv, hpl⟩
+  | succ n ih =>
+    intro r hint nread acc hinv hpl
+    obtain ⟨r1, e1, e2, e3, e4, _⟩ := readline_refines r (some (-1)) hinv hpl (fun s h => by cases h; left; rfl)
+    have hw : want (abs r) (some (-1)) = (abs r).length := by unfold want; simp
+    rw [hw] at e1 e2
+    unfold readlinesLoop specLines
+    simp only [e1]
+    by_cases hemp : ((abs r).take (lineStop (abs r) (abs r).length)).isEmpty = true
+    · simp only [hemp, if_true]
+      exact ⟨r1, rfl, e2, e3, e4⟩
+    · have hemp' : ((abs r).take (lineStop (abs r) (abs r).length)).isEmpty = false := by simpa using hemp
+      simp only [hemp', Bool.false_eq_true, if_false]
+      by_cases hh : hint ≥ 0
+      · simp only [hh, if_true]
+        by_cases hr : nread + ((abs r).take (lineStop (abs r) (abs r).length)).length ≥ hint
+        · simp only [hr, if_true]
+          exact ⟨r1, rfl, e2, e3, e4⟩
+        · simp only [hr, if_false]
+          obtain ⟨r2, f1, f2, f3, f4⟩ := ih r1 hint (nread + ((abs r).take (lineStop (abs r) (abs r).length)).length) (acc ++ [(abs r).take (lineStop (abs r) (abs r).length)]) e3 e4
+          rw [e2] at f1 f2
+          exact ⟨r2, f1, f2, f3, f4⟩
+      · simp only [hh, if_false]
+        obtain ⟨r2, f1, f2, f3, f4⟩ := ih r1 hint nread (acc ++ [(abs r).take (lineStop (abs r) (abs r).length)]) e3 e4
+        rw [e2] at f1 f2
+        exact ⟨r2, f1, f2, f3, f4⟩
+
+/-- more fuel than there are bytes makes no difference -/
+theorem specLines_fuel : ∀ (f1 f2 : Nat) (A : Bytes) (hint nread : Int) (acc : List Bytes), A.length < f1 → A.length < f2 →
+    specLines f1 A hint nread acc = specLines f2 A hint nread acc := by
+  intro f1
+  induction f1 with
+  | zero => intro f2 A _ _ _ h; omega
+  | succ n ih =>
+    intro f2 A hint nread acc h1 h2
+    cases f2 with
+    | zero => omega
+    | succ m =>
+      unfold specLines
+      simp only
+      by_cases hemp : (A.take (lineStop A A.length)).isEmpty = true
+      · simp only [hemp, if_true]
+      · have hemp' : (A.take (lineStop A A.length)).isEmpty = false := by simpa using hemp
+        simp only [hemp', Bool.false_eq_true, if_false]
+        have hk : 0 < (A.take (lineStop A A.length)).length := by
+          cases hc : A.take (lineStop A A.length) with
+          | nil => rw [hc] at hemp'; simp at hemp'
+          | cons _ _ => simp
+        have hd : (A.drop (lineStop A A.length)).length < A.length := by
+          rw [List.length_take] at hk; rw [List.length_drop]; omega
+        rw [ih m (A.drop (lineStop A A.length)) hint (nread + (A.take (lineStop A A.length)).length) _ (by omega) (by omega),
+          ih m (A.drop (lineStop A A.length)) hint nread _ (by omega) (by omega)]
+
+/-- the lines `readlines(hint)` returns on the flat text `A`, and what is left of it -/
+def linesOf (A : Bytes) (hint : Int) : List Bytes × Bytes := specLines (A.length + 1) A hint 0 []
+
+/-- **`readlines(hint)`** returns exactly the lines of the flat cursor and leaves exactly the rest -/
+theorem readlines_refines (r : R σ) (hint : Int) (hinv : Inv r) (hpl : r.pos ≤ r.len) :
+    ∃ r', readlines r hint = (some (linesOf (abs r) hint).1, r') ∧ abs r' = (linesOf (abs r) hint).2 ∧
+      Inv r' ∧ r'.pos ≤ r'.len := by
+  obtain ⟨r', e1, e2, e3, e4⟩ := readlinesLoop_refines (Source.bound r.src + r.buf.length + 3) r hint 0 [] hinv hpl
+  have hf := specLines_fuel (Source.bound r.src + r.buf.length + 3) ((abs r).length + 1) (abs r) hint 0 []
+    (fuel_enough r hinv hpl) (by omega)
+  rw [hf] at e1 e2
+  exact ⟨r', e1, e2, e3, e4⟩
+end Rd
